@@ -3,7 +3,9 @@ CONSTANTS
   PKeys = {}
   OKeys = {}
   KKeys = {}
-  Vals = {}
+  PVals = {}
+  OVals = {}
+  KVals = {}
   Idents = {}
   VModes = {}
   NModes = {}
